@@ -190,7 +190,7 @@ def _models(cfg):
 
         def create_model(interp, args, kw):
             return ("model", "updater")
-        reg(hyd.create_hydraulic_model, create_model, verified_by="builders (C01/C02/C07/C08)")
+        reg(hyd.create_hydraulic_model, create_model, verified_by="wntr.sim.hydraulics:create_hydraulic_model (contracts/c01_create_model.py) and the builder contracts")
         reg(core._Diagnostics, lambda i, a, k: Diag())
         reg(core._ValveSourceChecker, lambda i, a, k: "vsc")
 
